@@ -129,6 +129,9 @@ class _T(ast.NodeTransformer):
     def visit_Call(self, node: ast.Call):
         self.generic_visit(node)
         name = ast.unparse(node.func)
+        if name.split(".")[-1] in ("remainder", "mod") and len(node.args) == 2:
+            # numpy's remainder is Python's %
+            return ast.Call(func=ast.Name("__div_probe__", ast.Load()), args=[ast.Constant("mod"), node.args[0], node.args[1], ast.Constant(_inexact(node.args[0]) or _inexact(node.args[1])), ast.Constant(ast.unparse(node)[:80])], keywords=[])
         if name.split(".")[-1] in ("ceil", "floor", "round", "trunc") and len(node.args) == 1:
             return ast.Call(func=ast.Name("__round_probe__", ast.Load()), args=[node.func, node.args[0], ast.Constant(_inexact(node.args[0])), ast.Constant(ast.unparse(node)[:80])], keywords=[])
         return node
